@@ -225,6 +225,7 @@ impl Prop for Chains {
             chases: c.upstream_chases,
             extra_sections: false,
             ns_ttl: 5,
+            glue_families: 0,
         };
         let mut place = |src: Src, rr: &WRR| {
             let z = ZRec { owner: rr.name.clone(), wild: false, rtype: rr.rtype, data: rr.data.clone(), ttl: rr.ttl };
@@ -261,7 +262,7 @@ impl Prop for Chains {
             }
             _ => {}
         }
-        let universe = Universe { zones: vec![up], hosts: vec![UHost { name: N::parse("a.rs."), v4: vec![[10, 0, 0, 1]], v6: vec![] }] };
+        let universe = Universe { zones: vec![up], hosts: vec![UHost { name: N::parse("a.rs."), v4: vec![[10, 0, 0, 1]], v6: vec![] }], unserved: vec![] };
         let mut zones = Zones::new();
         zones.insert(auth.to_impl());
         zones.insert(local.to_impl());
